@@ -125,14 +125,16 @@ type recAppV1 struct {
 	b *batchObs
 }
 
-func (s *recStore) Appender(context.Context) storage.Appender { return &recAppV1{s: s, b: s.newBatch()} }
+func (s *recStore) Appender(context.Context) storage.Appender {
+	return &recAppV1{s: s, b: s.newBatch()}
+}
 
 func (a *recAppV1) Append(ref storage.SeriesRef, l labels.Labels, t int64, v float64) (storage.SeriesRef, error) {
 	return a.s.append(a.b, ref, l, t, v)
 }
-func (a *recAppV1) Commit() error                         { a.b.commit, a.b.done = true, true; return nil }
-func (a *recAppV1) Rollback() error                       { a.b.commit, a.b.done = false, true; return nil }
-func (*recAppV1) SetOptions(*storage.AppendOptions)       {}
+func (a *recAppV1) Commit() error                   { a.b.commit, a.b.done = true, true; return nil }
+func (a *recAppV1) Rollback() error                 { a.b.commit, a.b.done = false, true; return nil }
+func (*recAppV1) SetOptions(*storage.AppendOptions) {}
 func (*recAppV1) AppendExemplar(r storage.SeriesRef, _ labels.Labels, _ exemplar.Exemplar) (storage.SeriesRef, error) {
 	return r, nil
 }
@@ -664,6 +666,21 @@ func genAndRun(r *gen.Rand, run *runner, nsteps int, plain bool, m *gallina.Meta
 // samples was appended (the trigger of finding partial-append-failure)?
 func classify(run *runner, steps []*stepIn, m *gallina.Meta) string {
 	shape := "plain"
+	// trigger of finding alias-ref-change-marker: the storage forgets a label set that two
+	// metric texts of the pool map to
+	texts := map[int64]int{}
+	for _, c := range run.mut {
+		if c >= 2 {
+			texts[c-2]++
+		}
+	}
+	for _, s := range steps {
+		for _, id := range s.GC {
+			if texts[id] >= 2 {
+				shape = "alias-ref-change"
+			}
+		}
+	}
 	for _, s := range steps {
 		if s.Kind != "body" || len(s.Body) == 0 {
 			continue
